@@ -41,12 +41,12 @@ func sampleConstant(src []byte) bool {
 	return kit.Tier == "thorough" || sha1.Sum(src)[0]%4 == 0
 }
 
-func checkPackage(res *kit.Result, b []byte, where string, withStyles bool) {
+func checkPackage(res *kit.Result, b []byte, where string, withStyles bool) (pkg *opc.Package) {
 	const cl = "C19.M0"
 	pkg, err := opc.Read(b)
 	if err != nil {
 		res.Fail(cl, "%s: not a readable zip: %v", where, err)
-		return
+		return nil
 	}
 	if len(pkg.Dups) > 0 {
 		res.Fail(cl, "%s: duplicate zip entries %v", where, pkg.Dups)
@@ -93,6 +93,7 @@ func checkPackage(res *kit.Result, b []byte, where string, withStyles bool) {
 			res.Fail(cl, "%s: part %q has no content type", where, name)
 		}
 	}
+	return pkg
 }
 
 // ---------------------------------------------------------------------------------------------
@@ -110,6 +111,7 @@ type ablk struct {
 	jc    string // paragraph alignment (package reading only; not judged for paragraphs)
 	cs    []ch   // raw, not collapsed
 	rows  [][]acell
+	num   *numRef // the paragraph's w:numPr (nil = none): the paragraph is a list item
 }
 
 var headingRe = regexp.MustCompile(`^Heading([1-9])$`)
@@ -180,6 +182,16 @@ func observe(doc *document.Document) []ablk {
 					a.level = int(m[1][0] - '0')
 				}
 			}
+			if x.Properties != nil && x.Properties.NumberingProperties != nil {
+				np := x.Properties.NumberingProperties
+				a.num = &numRef{}
+				if np.NumID != nil {
+					a.num.id = np.NumID.Val
+				}
+				if np.ILevel != nil {
+					a.num.ilvl = np.ILevel.Val
+				}
+			}
 			out = append(out, a)
 		case *document.Table:
 			a := ablk{kind: "tbl"}
@@ -220,7 +232,26 @@ func blankChars(cs []ch) bool {
 const bulletRunes = "•◦▪●○■□‣·-*+"
 const boxRunes = "☐☑☒✓✔"
 
-// stripMarker removes leading indentation, one bullet or number, and one check-box glyph.
+// stripBox removes leading indentation and one check-box glyph (a task item that is a real list paragraph: bullet
+// and indentation come from the numbering definition, the box - whose state is not judged - may be in the text).
+func stripBox(cs []ch) []ch {
+	i := 0
+	for i < len(cs) && unicode.IsSpace(cs[i].r) {
+		i++
+	}
+	if i < len(cs) && strings.ContainsRune(boxRunes, cs[i].r) {
+		i++
+		for i < len(cs) && unicode.IsSpace(cs[i].r) {
+			i++
+		}
+		return cs[i:]
+	}
+	return cs
+}
+
+// stripMarker removes leading indentation, one bullet or number, and one check-box glyph. Only for a list item that
+// is NOT a list paragraph (no w:numPr), i.e. whose marker can only be literal text: in a list paragraph the marker
+// comes from the numbering definition and every character of the paragraph is the item's own text.
 func stripMarker(cs []ch) []ch {
 	i := 0
 	skipSp := func() {
@@ -310,7 +341,9 @@ func normAlign(s string) string {
 // judge evaluates M1..M6 of one fidelity case. Every failure detail starts with "@<top> ", the index of the
 // top-level source block it belongs to, so that known-finding triggers can look at exactly that block.
 // tablesOff: tables are parsed (GFM) but switched off in the converter; then only M1 is stated for them.
-func judge(res *kit.Result, exp []xblk, act []ablk, tablesOff bool) {
+// nums: the numbering part of the saved package when act is the independent reading of that package - then the list
+// clause M8 is judged as well; nil when act is the in-memory model (M8 is stated for the package only).
+func judge(res *kit.Result, exp []xblk, act []ablk, tablesOff bool, nums *numbering) {
 	// ---- M1: same visible text, white space aside
 	res.Eval("C19.M1")
 	var units []string // expected text per top-level source block, white space removed
@@ -334,16 +367,34 @@ func judge(res *kit.Result, exp []xblk, act []ablk, tablesOff bool) {
 			}
 		}
 	}
+	hasTask := false
+	for _, e := range exp {
+		hasTask = hasTask || e.task
+	}
 	var asb strings.Builder
 	for _, a := range act {
+		// marker glyphs are not text - in a paragraph that is not a list paragraph; a list paragraph (w:numPr) gets its
+		// marker from the numbering definition, so there only a check box at the very start is set aside, and only
+		// when the input has a task item at all (which paragraph belongs to it is M2's business)
+		glyphs := "•☐☑"
 		add := func(cs []ch) {
 			for _, c := range cs {
-				if !unicode.IsSpace(c.r) && !strings.ContainsRune("•☐☑", c.r) {
+				if !unicode.IsSpace(c.r) && !strings.ContainsRune(glyphs, c.r) {
 					asb.WriteRune(c.r)
 				}
 			}
 		}
-		add(a.cs)
+		if a.num != nil {
+			glyphs = ""
+			if hasTask {
+				add(stripBox(a.cs))
+			} else {
+				add(a.cs)
+			}
+		} else {
+			add(a.cs)
+		}
+		glyphs = "•☐☑"
 		for _, r := range a.rows {
 			for _, c := range r {
 				add(c.cs)
@@ -496,6 +547,17 @@ func judge(res *kit.Result, exp []xblk, act []ablk, tablesOff bool) {
 		}
 		a := act[j]
 		j++
+		// outside any list no list marker may be drawn in front of a block (M8; judged once the block has been
+		// recognised as the expected one, so that a walk that lost its place says nothing)
+		notListed := func() {
+			if nums == nil || e.depth >= 0 {
+				return
+			}
+			res.Eval("C19.M8")
+			if a.num != nil && strings.TrimLeft(a.num.id, "0") != "" {
+				res.Fail("C19.M8", "@%d the %s block %q, which is outside any list, is a list paragraph (w:numPr with w:numId %q, w:ilvl %q): a marker nobody wrote is drawn in front of it", e.top, e.kind, sh(csText(e.cs)+e.line), a.num.id, a.num.ilvl)
+			}
+		}
 		switch e.kind {
 		case "h":
 			res.Eval("C19.M3")
@@ -510,6 +572,7 @@ func judge(res *kit.Result, exp []xblk, act []ablk, tablesOff bool) {
 				res.Fail("C19.M3", "@%d heading text %q became %q", e.top, sh(csText(e.cs)), sh(got))
 				return
 			}
+			notListed()
 			res.Eval("C19.M4")
 			// the heading style itself may be bold/italic: only flags the style cannot explain are judged
 			if d := flagDiff(e.cs, collapse(a.cs), fB|fI); d != "" {
@@ -524,13 +587,25 @@ func judge(res *kit.Result, exp []xblk, act []ablk, tablesOff bool) {
 			}
 			acs := a.cs
 			if e.item {
-				acs = stripMarker(acs)
+				switch {
+				case a.num == nil: // not a list paragraph: a marker can only be literal text, which is not the item's text
+					acs = stripMarker(acs)
+				case e.task:
+					acs = stripBox(acs)
+				}
 			}
 			acs = collapse(acs)
 			if csText(acs) != csText(e.cs) {
+				if nums != nil && e.item && !e.task && a.num != nil && csText(collapse(stripMarker(a.cs))) == csText(e.cs) {
+					res.Fail("C19.M8", "@%d list item%s %q is a list paragraph AND carries a marker in its text: %q", e.top, flatNote(e), sh(csText(e.cs)), sh(csText(a.cs)))
+				}
 				res.Fail("C19.M2", "@%d block text %q became %q", e.top, sh(csText(e.cs)), sh(csText(a.cs)))
 				return
 			}
+			if nums != nil && e.item && !e.task {
+				judgeItem(res, e, a, nums)
+			}
+			notListed()
 			res.Eval("C19.M4")
 			if d := flagDiff(e.cs, acs, 0); d != "" {
 				res.Fail("C19.M4", "@%d %s", e.top, d)
@@ -551,6 +626,9 @@ func judge(res *kit.Result, exp []xblk, act []ablk, tablesOff bool) {
 			} else if got != e.line {
 				res.Fail("C19.M5", "@%d code line %q became %q", e.top, shDiff(e.line, got), sh(got))
 				return
+			}
+			if strings.TrimSpace(e.line) != "" { // a blank line is no evidence that the walk is still in place
+				notListed()
 			}
 		case "tbl":
 			res.Eval("C19.M6")
@@ -600,6 +678,42 @@ func judge(res *kit.Result, exp []xblk, act []ablk, tablesOff bool) {
 		}
 		res.Fail("C19.M2", "@%d the document has an extra %s element %q after the last expected block", top, act[j].kind, sh(csText(act[j].cs)))
 		return
+	}
+}
+
+// flatNote marks, in an M8 failure, an item that sits inside a block quote or a multi-block list item (the containers
+// of the open finding KF-C19-flatten-blocks; its trigger looks for this note)
+const flatMark = " (inside a block quote or a list item holding more than one paragraph)"
+
+func flatNote(e xblk) string {
+	if e.flat {
+		return flatMark
+	}
+	return ""
+}
+
+// judgeItem (M8): a plain (non-task) list item is a list paragraph of the right kind at the right level, as a
+// consumer of the package resolves it: w:numPr -> w:num -> w:abstractNum -> w:lvl of the paragraph's w:ilvl ->
+// w:numFmt "bullet" for an item of a bullet list, "decimal" for an item of an ordered list; w:ilvl = number of lists
+// the item is nested in, minus one. Nothing is demanded about start numbers or restarts.
+func judgeItem(res *kit.Result, e xblk, a ablk, nums *numbering) {
+	res.Eval("C19.M8")
+	kind, want := "bullet", "bullet"
+	if e.ord {
+		kind, want = "ordered", "decimal"
+	}
+	if a.num == nil {
+		res.Fail("C19.M8", "@%d %s list item%s %q is not a list paragraph: the paragraph %q has no w:numPr", e.top, kind, flatNote(e), sh(csText(e.cs)), sh(csText(a.cs)))
+		return
+	}
+	f, why := nums.format(a.num)
+	if why != "" {
+		res.Fail("C19.M8", "@%d %s list item%s %q: its w:numPr (w:numId %q, w:ilvl %q) does not resolve: %s", e.top, kind, flatNote(e), sh(csText(e.cs)), a.num.id, a.num.ilvl, why)
+	} else if f != want {
+		res.Fail("C19.M8", "@%d %s list item%s %q: level %s of its numbering (w:numId %q) has w:numFmt %q, not %q", e.top, kind, flatNote(e), sh(csText(e.cs)), a.num.level(), a.num.id, f, want)
+	}
+	if lv := strings.TrimSpace(a.num.level()); lv != itoa(e.depth) {
+		res.Fail("C19.M8", "@%d %s list item%s %q is nested in %d list(s) and has w:ilvl %q, not %d", e.top, kind, flatNote(e), sh(csText(e.cs)), e.depth+1, a.num.ilvl, e.depth)
 	}
 }
 
